@@ -104,7 +104,18 @@ def clientLine (rs : RibSt) (cl : Cl.State) (ts : List Tok) : RibSt × Cl.State 
         match rest.reverse with
         | [el, pa] :: opsRev =>
           match opsRev.reverse.mapM clOpOf, boolOf el, boolOf pa with
-          | some ops, some el, some pa => (rs.covr "cl.q", Cl.q cl { ops := ops, elec := el, params := pa })
+          | some ops, some el, some pa =>
+            -- a request that reuses the id of an operation that is pending (by the model's record,
+            -- while it still describes the run), or names one id twice: the client cannot track
+            -- both — it has to record an error, or the second operation is lost without a word
+            let ids := ops.map (·.1)
+            let reused := if rs.diverged then none
+              else (ids.find? (fun i => (cl.pendOps.map (·.1)).contains i)).orElse
+                     (fun _ => ids.find? (fun i => (ids.filter (· == i)).length > 1))
+            let rs := match reused with
+              | some i => { rs with dupHandedOver := some i }
+              | none => rs
+            (rs.covr "cl.q", Cl.q cl { ops := ops, elec := el, params := pa })
           | _, _, _ => (bad rs, cl)
         | _ => (bad rs, cl)
       | _ => (bad rs, cl)
@@ -157,7 +168,11 @@ def clientLine (rs : RibSt) (cl : Cl.State) (ts : List Tok) : RibSt × Cl.State 
           let rs := if se < rs.lastErrs.1 || re < rs.lastErrs.2
             then rs.monfail "c13" s!"the client reported {rs.lastErrs.1} send and {rs.lastErrs.2} receive errors before, now {se} and {re}: a recorded error is gone"
             else rs
-          let rs := { rs with lastErrs := (se, re) }
+          let rs := match rs.dupHandedOver with
+            | some i => if se > rs.lastErrs.1 then rs
+                else rs.monfail "c13" s!"a request reusing the id {i} of a pending operation was handed over and the client recorded no error: the operation is neither tracked nor reported — it is lost"
+            | none => rs
+          let rs := { rs with lastErrs := (se, re), dupHandedOver := none }
           if rs.diverged then (rs, cl) else
           let mIds := cl.pendOps.map (·.1)
           let rs := if permEq mIds ids then rs else rs.diff "cl.pend" s!"model={mIds} impl={ids}"
@@ -209,7 +224,11 @@ def clientLine (rs : RibSt) (cl : Cl.State) (ts : List Tok) : RibSt × Cl.State 
         let rs := match Cl.await cl, rest with
           | .errors a b, [x, y] => if natOf x = some a ∧ natOf y = some b then rs else rs.diff "cl.await.counts" s!"model=({a},{b})"
           | _, _ => rs
-        -- C13 monitor: success only when nothing is pending and no error was recorded
+        -- C13 monitor: success only when no error was recorded — judged on the client's own last
+        -- report of its errors
+        let rs := if impl == "converged" && (rs.lastErrs.1 > 0 || rs.lastErrs.2 > 0)
+          then rs.monfail "c13" s!"AwaitConverged returned success although the client reports {rs.lastErrs.1} send and {rs.lastErrs.2} receive errors"
+          else rs
         (rs, cl)
       | _ => (bad rs, cl)
     else (bad rs, cl)
